@@ -402,9 +402,40 @@ func c04ChunkSingleFault() []string {
 	for _, lie := range []string{"4", "6", "7", "0", "ffffffff"} {
 		out = append(out, lie+"\r\nhello\r\n0\r\n\r\nREST")
 	}
+	// round 6, unicode-fold family: every hex digit of a size line (single, first, last, the last
+	// chunk's 0) replaced by a non-ASCII look-alike — fullwidth digits and letters, Arabic-Indic /
+	// extended Arabic-Indic / Devanagari / mathematical digits: valid for unicode.IsDigit-style
+	// parsers, not for the chunk-size grammar
+	for _, sz := range []string{"5", "05", "50", "a", "A", "1f", "F1", "0"} {
+		for i := 0; i < len(sz); i++ {
+			for _, l := range c04ChunkLookalikes(sz[i]) {
+				v := sz[:i] + l + sz[i+1:]
+				n, _ := strconv.ParseUint(sz, 16, 64)
+				if n == 0 {
+					out = append(out, "5\r\nhello\r\n"+v+"\r\n\r\nREST")
+					continue
+				}
+				out = append(out, v+"\r\n"+strings.Repeat("d", int(n))+"\r\n0\r\n\r\nREST", v+";x\n"+strings.Repeat("d", int(n))+"\r\n0\r\n\r\nREST")
+			}
+		}
+	}
 	clean := "5;e\r\nhello\r\n00a\r\n0123456789\r\n0\r\n\r\n"
 	for k := 0; k <= len(clean); k++ {
 		out = append(out, clean[:k])
+	}
+	return out
+}
+
+// c04ChunkLookalikes: non-ASCII UTF-8 strings that Unicode-aware digit / case handling maps onto
+// the ASCII hex digit c.
+func c04ChunkLookalikes(c byte) []string {
+	var out []string
+	switch {
+	case c >= '0' && c <= '9':
+		d := int(c - '0')
+		out = append(out, string(rune(0xff10+d)), string(rune(0x0660+d)), string(rune(0x06f0+d)), string(rune(0x0966+d)), string(rune(0x1d7ce+d)))
+	case (c|0x20) >= 'a' && (c|0x20) <= 'f':
+		out = append(out, string(rune(0xff41+int((c|0x20)-'a'))), string(rune(0xff21+int((c|0x20)-'a'))))
 	}
 	return out
 }
